@@ -756,12 +756,50 @@ func c14NTSOne(r *ev.Run, id string, rng *rand.Rand) {
 		}
 	case k < 7: // the server's response: cookies travel encrypted
 		n := 1 + rng.IntN(7)
-		for i := 0; i < n; i++ {
-			enc = append(enc, c14ProjectCookie(rng, key, rng.IntN(65536), c14RandBytes(rng, 32), c14RandBytes(rng, 32)))
-		}
 		uid = c14RandBytes(rng, 32)
-		pkt = nts.NewResponsePacket(enc, key, uid)
 		shape = "response"
+		if rng.IntN(2) == 0 {
+			for i := 0; i < n; i++ {
+				enc = append(enc, c14ProjectCookie(rng, key, rng.IntN(65536), c14RandBytes(rng, 32), c14RandBytes(rng, 32)))
+			}
+		} else {
+			// cookies are opaque to the client: any length a server may choose, equal or mixed, as many as the
+			// packet holds
+			clen := []int{4, 8, 16, 20, 24, 28, 30, 33, 100, 101, 122, 124, 132}[rng.IntN(13)]
+			if rng.IntN(3) == 0 {
+				clen = 1 + rng.IntN(132)
+			}
+			mixed := rng.IntN(4) == 0
+			n = 1 + rng.IntN(8)
+			longest := clen
+			for i := 0; i < n; i++ {
+				l := clen
+				if mixed && i > 0 {
+					l = 1 + rng.IntN(132)
+				}
+				longest = max(longest, l)
+				enc = append(enc, c14RandBytes(rng, l))
+			}
+			if c := nts.ResponseCookieCapacity(len(uid), longest); n > c {
+				n = c
+				enc = enc[:n]
+			}
+			shape = "response with cookies of other lengths"
+			if mixed {
+				shape = "response with cookies of mixed lengths"
+			}
+			if n == 0 {
+				enc = append(enc, c14RandBytes(rng, 8))
+			}
+		}
+		if p := c14Try(func() { pkt = nts.NewResponsePacket(enc, key, uid) }); p != nil {
+			lens := []int{}
+			for _, c := range enc {
+				lens = append(lens, len(c))
+			}
+			r.Violation("nts.NewResponsePacket|panic:"+c14Panic(p)+"|"+shape, id, map[string]any{"cookie_lengths": lens, "unique_id_length": len(uid), "panic": fmt.Sprint(p)})
+			return
+		}
 	default: // hand-built field lists within MaxPacketLen
 		ulen := 32
 		if rng.IntN(2) == 0 {
@@ -943,7 +981,10 @@ func c14NTSOne(r *ev.Run, id string, rng *rand.Rand) {
 		ok := perr == nil && len(d.Cookies) == len(enc)
 		if ok {
 			for i := range enc {
-				ok = ok && bytes.Equal(d.Cookies[i].Cookie, enc[i])
+				// a cookie whose length is not a multiple of four comes back zero-padded to one ("4-byte aligned")
+				got := d.Cookies[i].Cookie
+				ok = ok && len(got) == c14Pad4(len(enc[i])) && bytes.Equal(got[:len(enc[i])], enc[i]) &&
+					bytes.Equal(got[len(enc[i]):], make([]byte, len(got)-len(enc[i])))
 			}
 		}
 		if !ok {
